@@ -126,7 +126,7 @@ def fill_coverage(run, tier):
         "_join, _iter, _similar_gap_sites, the early exits of the four iterate_* methods; Alignments: grouping by "
         "cognate id, write-back by word id",
         "not modelled: the numeric kernels (inside the oracles), swap detection itself (swap_check only reads the "
-        "alignment: modelled as the identity and compared), fuzzy (partial-cognate) mode of Alignments, "
+        "alignment: modelled as the identity and compared), split_on_tones=True of fuzzy Alignments, "
         "unique_seqs=False, mode='local'"]
     run.assumptions += [
         "Python exceptions are modelled as None; theorems are partial-correctness statements about calls that return",
